@@ -9,28 +9,32 @@ from ..common import F, rat, rats, ratss, ints, parse_ratss, quiet
 PID = "C21"
 CLAIM = dict(
     design="3/C21",
-    technique="Lean 4 proof about the explicit p and d rotation matrices of Orbitals.rot_orb_basis (model over an "
-              "abstract field containing sqrt 3, executed at Q(sqrt 3)), about hybrids M A M^T and about the "
+    technique="Lean 4 proof about the explicit p, d and f rotation matrices of Orbitals.rot_orb_basis (model over an "
+              "abstract field containing sqrt 3 / sqrt 15, sqrt 10, sqrt 6; executed at Q(sqrt 3) for d and in the "
+              "rescaled integer basis for f), about hybrids M A M^T and about the "
               "block-permutation matrix of Dwann.get_on_points + exact differential correspondence on rational "
               "orthogonal matrices + property oracle on the real OrbitalRotator / Dwann (all shells incl. f, all "
               "hybrids, random O(3) and all cubic + hexagonal crystallographic operations)",
-    text="Theorems, over every field (of characteristic 0 and containing sqrt 3 for the d shell), for every 3x3 matrix "
-         "S with S S^T = 1, proper or improper: the p and d matrices built by the code are the matrices of the "
+    text="Theorems, over every field of characteristic 0 (containing sqrt 3 for d; sqrt 15, sqrt 10, sqrt 6 for f), for "
+         "every 3x3 matrix S with S S^T = 1, proper or improper: the p, d and f matrices built by the code are the matrices of the "
          "substitution r -> S r in the orbital basis, are the identity for S = 1, satisfy A^T A = 1 and the "
          "composition law A(S2 S1) = A(S1) A(S2) (derived from the abstract theorem 'substitution is functorial => "
-         "composition law' and the linear independence of the orbitals), p is odd and d even under inversion; for "
+         "composition law' and the linear independence of the orbitals; f-orthogonality from the addition theorem for "
+         "l = 3), p and f are odd and d even under inversion (shells_orthogonal: s, p, d, f); for "
          "hybrids M A M^T: orthogonal, multiplicative and identity-preserving whenever M M^T = 1 and the shell matrix "
          "commutes with the projector M^T M (the hybrid subspace is invariant - automatic when M is square, as for "
          "sp3); a block-permutation matrix with unitary blocks and unimodular phases is unitary and its block "
-         "(atommap i, i) is phase_i * rot_i.  f shell: not proved (oracle only).",
+         "(atommap i, i) is phase_i * rot_i.",
     note="For sp, sp2, sp3d2, t2g, eg, p2, pz, pxy the statement 'for all of O(3)' is false for ANY implementation "
          "(the subspace is not invariant); the check restricts these hybrids to rotations that leave the hybrid "
          "subspace invariant (detected numerically from the full-shell matrix) and does not raise alarms otherwise.",
 )
 TRUSTED = [
-    "modelled: Orbitals.rot_orb_basis for s, p, d (substitution, expansion, coefficient extraction, recombination), "
+    "modelled: Orbitals.rot_orb_basis for s, p, d, f (substitution, expansion, coefficient extraction, recombination; "
+    "the f correspondence runs the model in the integer basis g_i = n_i f_i and uses the proved relation "
+    "A_ji = n_j B_ji / n_i), "
     "Orbitals.rot_orb for hybrids (M @ blockdiag @ M.T), Dwann.get_on_points (block placement and phases)",
-    "not modelled (oracle only): the f shell, the sympy expansion itself, OrbitalRotator's cache (UniqueList with "
+    "not modelled (oracle only): the sympy expansion itself, OrbitalRotator's cache (UniqueList with "
     "tolerance 1e-4: two rotations closer than 1e-4 share one cached matrix - generators keep rotations >= 1e-2 apart "
     "or use identical matrices), local bases (basis2 @ R @ basis1.T), ';'-joined symbols, Dwann.__init__ (atommap and "
     "T come from irrep.get_atom_map and are checked against the property on every run), spinor blocks",
@@ -202,6 +206,12 @@ def corr(ctx):
             add(f"rotp {ratss(S)}", mat_check(Ap, f"p matrix ({kind})", 1e-13), ("p", str(R)), kind != "perm")
             Ad = orbs.rot_orb_basis("d", Rn)
             add(f"rotd {ratss(S)}", matq3_check(Ad, f"d matrix ({kind})", 1e-12), ("d", str(R)), True)
+            if it % ctx.n(3, 2) == 0:      # f shell: ~1 s of sympy per rotation in the real code
+                Af = orbs.rot_orb_basis("f", Rn)
+                # the model works in the integer basis g_i = n_i f_i (rational entries B); proved: A_ji = n_j B_ji / n_i
+                nf = np.array([2 * S15, 2 * S10, 2 * S10, 2.0, 1.0, 2 * S6, 2 * S6])
+                add(f"rotg {ratss(S)}", mat_check(Af * nf[None, :] / nf[:, None], f"f matrix ({kind}), integer basis", 1e-12),
+                    ("f", str(R)), True)
     # ---- 2. hybrids: M @ blockdiag(shell matrices) @ M.T with the code's own M and shell order
     rotator = OrbitalRotator()
     for it in range(ctx.n(10, 60)):
